@@ -80,13 +80,13 @@ theorem set_num_frames_tie (wh : Wh) (nf : BitVec 32) :
 
 /-- the calls `rf_wavheader_init` must make: clear the structure, then copy the five identifiers (the fact identifier for
     the float format only) -/
-def initTrace (isFloat : Bool) : List ExtCall :=
-  [⟨"zeroed_wh", []⟩,
-   ⟨"memcpy", [rf_wavheader_init.tag_wh_chunk_id, rf_wavheader_init.tag_riff, 4#64]⟩,
-   ⟨"memcpy", [rf_wavheader_init.tag_wh_format, rf_wavheader_init.tag_wave, 4#64]⟩,
-   ⟨"memcpy", [rf_wavheader_init.tag_wh_fmt_chunk_id, rf_wavheader_init.tag_fmt, 4#64]⟩] ++
-  (if isFloat then [⟨"memcpy", [rf_wavheader_init.tag_wh_fact_chunk_id, rf_wavheader_init.tag_fact, 4#64]⟩] else []) ++
-  [⟨"memcpy", [rf_wavheader_init.tag_wh_data_chunk_id, rf_wavheader_init.tag_data, 4#64]⟩]
+def initTrace (isFloat : Bool) (q1 q2 q3 q4 q5 : BitVec 64) : List ExtCall :=
+  [⟨"zeroed_wh", [], 0#64⟩,
+   ⟨"memcpy", [rf_wavheader_init.tag_wh_chunk_id, rf_wavheader_init.tag_riff, 4#64], q1⟩,
+   ⟨"memcpy", [rf_wavheader_init.tag_wh_format, rf_wavheader_init.tag_wave, 4#64], q2⟩,
+   ⟨"memcpy", [rf_wavheader_init.tag_wh_fmt_chunk_id, rf_wavheader_init.tag_fmt, 4#64], q3⟩] ++
+  (if isFloat then [⟨"memcpy", [rf_wavheader_init.tag_wh_fact_chunk_id, rf_wavheader_init.tag_fact, 4#64], q4⟩] else []) ++
+  [⟨"memcpy", [rf_wavheader_init.tag_wh_data_chunk_id, rf_wavheader_init.tag_data, 4#64], q5⟩]
 
 /-- bytes per sample as `rf_wavheader_init` computes them (`uint8_t`, promoted to `int`) -/
 def bpsBV (f : BitVec 32) : BitVec 32 := if f = 0#32 then 2#32 else 4#32
@@ -112,7 +112,7 @@ theorem init_generated (cs fcs : BitVec 32) (af nc : BitVec 16) (sr br : BitVec 
 
 theorem init_trace_generated (cs fcs : BitVec 32) (af nc : BitVec 16) (sr br : BitVec 32) (ba bps cb vb : BitVec 16)
     (cm fs sl ds sfreq nch f : BitVec 32) (q1 q2 q3 q4 q5 : BitVec 64) :
-    rf_wavheader_init.trace (rf_wavheader_init cs fcs af nc sr br ba bps cb vb cm fs sl ds sfreq nch f q1 q2 q3 q4 q5) = initTrace (f == 2#32) := by
+    rf_wavheader_init.trace (rf_wavheader_init cs fcs af nc sr br ba bps cb vb cm fs sl ds sfreq nch f q1 q2 q3 q4 q5) q1 q2 q3 q4 q5 = initTrace (f == 2#32) q1 q2 q3 q4 q5 := by
   unfold rf_wavheader_init.trace initTrace rf_wavheader_init
   by_cases h : f = 2#32
   · subst h; rfl
@@ -125,7 +125,7 @@ theorem init_trace_generated (cs fcs : BitVec 32) (af nc : BitVec 16) (sr br : B
 theorem init_tie (prior wh0 : Wh) (sfreq nch f : BitVec 32) (q1 q2 q3 q4 q5 : BitVec 64) :
     let g := onWh rf_wavheader_init wh0 sfreq nch f q1 q2 q3 q4 q5
     let m := Librfn.Model.Wav.init prior sfreq nch f.toInt
-    g.ub = false ∧ g.exh = false ∧ rf_wavheader_init.trace g = initTrace (f == 2#32) ∧
+    g.ub = false ∧ g.exh = false ∧ rf_wavheader_init.trace g q1 q2 q3 q4 q5 = initTrace (f == 2#32) q1 q2 q3 q4 q5 ∧
     g.wh_chunk_size = m.chunkSize ∧ g.wh_fmt_chunk_size = m.fmtChunkSize ∧ g.wh_audio_format = m.audioFormat ∧
     g.wh_num_channels = m.numChannels ∧ g.wh_sample_rate = m.sampleRate ∧ g.wh_byte_rate = m.byteRate ∧
     g.wh_block_align = m.blockAlign ∧ g.wh_bits_per_sample = m.bitsPerSample ∧ g.wh_cb_size = m.cbSize ∧
@@ -338,7 +338,7 @@ theorem runEnc_append (wh : Wh) (a b : List ExtCall) (s : Librfn.Model.Pack.Mem 
 theorem encode_tie (wh : Wh) (hw : wh.WF) (m : Librfn.Model.Pack.Mem) (b sz : Nat) (p : BitVec 64) (szb rem : BitVec 32) :
     let g := onWh rf_wavheader_encode wh p szb (cmpRet fact wh.factChunkId) rem
     g.ub = false ∧ g.exh = false ∧ g.ret = szb - rem ∧
-    runEnc wh (rf_wavheader_encode.trace g) (m, Librfn.Model.Pack.init b sz) = encTail wh (encExt wh (encHead wh m (Librfn.Model.Pack.init b sz))) := by
+    runEnc wh (rf_wavheader_encode.trace g (cmpRet fact wh.factChunkId) rem) (m, Librfn.Model.Pack.init b sz) = encTail wh (encExt wh (encHead wh m (Librfn.Model.Pack.init b sz))) := by
   unfold onWh
   have H := encode_generated wh.chunkSize wh.fmtChunkSize wh.audioFormat wh.numChannels wh.sampleRate wh.byteRate wh.blockAlign
     wh.bitsPerSample wh.cbSize wh.validBitsPerSample wh.channelMask wh.factChunkSize wh.sampleLength wh.dataChunkSize p szb
@@ -357,5 +357,412 @@ theorem encode_tie (wh : Wh) (hw : wh.WF) (m : Librfn.Model.Pack.Mem) (b sz : Na
       rf_wavheader_encode.tag_wh_chunk_id, rf_wavheader_encode.tag_wh_format, rf_wavheader_encode.tag_wh_fmt_chunk_id,
       rf_wavheader_encode.tag_wh_sub_format, rf_wavheader_encode.tag_wh_fact_chunk_id, rf_wavheader_encode.tag_wh_data_chunk_id,
       rf_wavheader_encode.tag_local_pack, rf_wavheader_encode.tag_fact]
+
+/-! ### rf_wavheader_decode -/
+
+/-- everything `rf_wavheader_decode` decides, for all inputs: which unpack result becomes which member (`u1..u8`, `h1..h6` are the
+    values the `rf_unpack_u32le` / `rf_unpack_u16le` calls return, in call order), the early rejection of a format chunk size above
+    0x7fffff00 before anything is skipped, the optional extension (`cb_size == 22`) or skip of `fmt_chunk_size - 18` bytes, the fact
+    chunk, the three header tests (the size sum in wrapping 32-bit arithmetic) and the returned `sz - rf_pack_remaining()`; every call,
+    its condition and its arguments; the structure is cleared first whatever it held -/
+theorem decode_generated (p : BitVec 64) (sz : BitVec 32) (cs fcs : BitVec 32) (af nc : BitVec 16) (sr br : BitVec 32) (ba bps cb vb : BitVec 16)
+    (cm fs sl ds : BitVec 32) (u1 u2 : BitVec 32) (h1 h2 : BitVec 16) (u3 u4 : BitVec 32) (h3 h4 h5 h6 : BitVec 16) (u5 mc1 : BitVec 32)
+    (q : BitVec 64) (u6 u7 u8 mc2 mc3 rem : BitVec 32) :
+    let g := rf_wavheader_decode p sz cs fcs af nc sr br ba bps cb vb cm fs sl ds u1 u2 h1 h2 u3 u4 h3 h4 h5 h6 u5 mc1 q u6 u7 u8 mc2 mc3 rem
+    g.ub = false ∧
+    g.exh = false ∧
+    g.zeroed_wh_called_1 = true ∧
+    g.ret = (if !!(BitVec.ult 0x7fffff00#32 u2) then 0xffffffea#32 else if mc2 != 0#32 then 0xffffffea#32 else if BitVec.ult u1 (12#32 + u2 + (if (!(BitVec.ult 0x7fffff00#32 u2) && (mc1 == 0#32)) then u6 else 0#32)) then 0xffffffea#32 else if mc3 != 0#32 then 0xffffffea#32 else sz - rem) ∧
+    g.wh_chunk_size = u1 ∧
+    g.wh_fmt_chunk_size = u2 ∧
+    g.wh_audio_format = h1 ∧
+    g.wh_num_channels = h2 ∧
+    g.wh_sample_rate = u3 ∧
+    g.wh_byte_rate = u4 ∧
+    g.wh_block_align = h3 ∧
+    g.wh_bits_per_sample = h4 ∧
+    g.wh_cb_size = (if (!(BitVec.ult 0x7fffff00#32 u2) && BitVec.ule 18#32 u2) then h5 else 0#16) ∧
+    g.wh_valid_bits_per_sample = (if (!(BitVec.ult 0x7fffff00#32 u2) && BitVec.ule 18#32 u2 && (h5 == 22#16)) then h6 else 0#16) ∧
+    g.wh_channel_mask = (if (!(BitVec.ult 0x7fffff00#32 u2) && BitVec.ule 18#32 u2 && (h5 == 22#16)) then u5 else 0#32) ∧
+    g.wh_fact_chunk_size = (if (!(BitVec.ult 0x7fffff00#32 u2) && (mc1 == 0#32)) then u6 else 0#32) ∧
+    g.wh_sample_length = (if (!(BitVec.ult 0x7fffff00#32 u2) && (mc1 == 0#32)) then u7 else 0#32) ∧
+    g.wh_data_chunk_size = (if !(BitVec.ult 0x7fffff00#32 u2) then u8 else 0#32) ∧
+    g.rf_pack_init_called_1 = true ∧
+    (g.rf_pack_init_called_1 = true → g.rf_pack_init_arg_1_0 = rf_wavheader_decode.tag_local_pack) ∧
+    (g.rf_pack_init_called_1 = true → g.rf_pack_init_arg_1_1 = p) ∧
+    (g.rf_pack_init_called_1 = true → g.rf_pack_init_arg_1_2 = sz) ∧
+    g.rf_unpack_bytes_called_1 = true ∧
+    (g.rf_unpack_bytes_called_1 = true → g.rf_unpack_bytes_arg_1_0 = rf_wavheader_decode.tag_local_pack) ∧
+    (g.rf_unpack_bytes_called_1 = true → g.rf_unpack_bytes_arg_1_1 = rf_wavheader_decode.tag_wh_chunk_id) ∧
+    (g.rf_unpack_bytes_called_1 = true → g.rf_unpack_bytes_arg_1_2 = 4#32) ∧
+    g.rf_unpack_u32le_called_1 = true ∧
+    (g.rf_unpack_u32le_called_1 = true → g.rf_unpack_u32le_arg_1_0 = rf_wavheader_decode.tag_local_pack) ∧
+    g.rf_unpack_bytes_called_2 = true ∧
+    (g.rf_unpack_bytes_called_2 = true → g.rf_unpack_bytes_arg_2_0 = rf_wavheader_decode.tag_local_pack) ∧
+    (g.rf_unpack_bytes_called_2 = true → g.rf_unpack_bytes_arg_2_1 = rf_wavheader_decode.tag_wh_format) ∧
+    (g.rf_unpack_bytes_called_2 = true → g.rf_unpack_bytes_arg_2_2 = 4#32) ∧
+    g.rf_unpack_bytes_called_3 = true ∧
+    (g.rf_unpack_bytes_called_3 = true → g.rf_unpack_bytes_arg_3_0 = rf_wavheader_decode.tag_local_pack) ∧
+    (g.rf_unpack_bytes_called_3 = true → g.rf_unpack_bytes_arg_3_1 = rf_wavheader_decode.tag_wh_fmt_chunk_id) ∧
+    (g.rf_unpack_bytes_called_3 = true → g.rf_unpack_bytes_arg_3_2 = 4#32) ∧
+    g.rf_unpack_u32le_called_2 = true ∧
+    (g.rf_unpack_u32le_called_2 = true → g.rf_unpack_u32le_arg_2_0 = rf_wavheader_decode.tag_local_pack) ∧
+    g.rf_unpack_u16le_called_1 = true ∧
+    (g.rf_unpack_u16le_called_1 = true → g.rf_unpack_u16le_arg_1_0 = rf_wavheader_decode.tag_local_pack) ∧
+    g.rf_unpack_u16le_called_2 = true ∧
+    (g.rf_unpack_u16le_called_2 = true → g.rf_unpack_u16le_arg_2_0 = rf_wavheader_decode.tag_local_pack) ∧
+    g.rf_unpack_u32le_called_3 = true ∧
+    (g.rf_unpack_u32le_called_3 = true → g.rf_unpack_u32le_arg_3_0 = rf_wavheader_decode.tag_local_pack) ∧
+    g.rf_unpack_u32le_called_4 = true ∧
+    (g.rf_unpack_u32le_called_4 = true → g.rf_unpack_u32le_arg_4_0 = rf_wavheader_decode.tag_local_pack) ∧
+    g.rf_unpack_u16le_called_3 = true ∧
+    (g.rf_unpack_u16le_called_3 = true → g.rf_unpack_u16le_arg_3_0 = rf_wavheader_decode.tag_local_pack) ∧
+    g.rf_unpack_u16le_called_4 = true ∧
+    (g.rf_unpack_u16le_called_4 = true → g.rf_unpack_u16le_arg_4_0 = rf_wavheader_decode.tag_local_pack) ∧
+    g.rf_unpack_u16le_called_5 = (!(BitVec.ult 0x7fffff00#32 u2) && BitVec.ule 18#32 u2) ∧
+    (g.rf_unpack_u16le_called_5 = true → g.rf_unpack_u16le_arg_5_0 = rf_wavheader_decode.tag_local_pack) ∧
+    g.rf_unpack_u16le_called_6 = (!(BitVec.ult 0x7fffff00#32 u2) && BitVec.ule 18#32 u2 && (h5 == 22#16)) ∧
+    (g.rf_unpack_u16le_called_6 = true → g.rf_unpack_u16le_arg_6_0 = rf_wavheader_decode.tag_local_pack) ∧
+    g.rf_unpack_u32le_called_5 = (!(BitVec.ult 0x7fffff00#32 u2) && BitVec.ule 18#32 u2 && (h5 == 22#16)) ∧
+    (g.rf_unpack_u32le_called_5 = true → g.rf_unpack_u32le_arg_5_0 = rf_wavheader_decode.tag_local_pack) ∧
+    g.rf_unpack_bytes_called_4 = (!(BitVec.ult 0x7fffff00#32 u2) && BitVec.ule 18#32 u2 && (h5 == 22#16)) ∧
+    (g.rf_unpack_bytes_called_4 = true → g.rf_unpack_bytes_arg_4_0 = rf_wavheader_decode.tag_local_pack) ∧
+    (g.rf_unpack_bytes_called_4 = true → g.rf_unpack_bytes_arg_4_1 = rf_wavheader_decode.tag_wh_sub_format) ∧
+    (g.rf_unpack_bytes_called_4 = true → g.rf_unpack_bytes_arg_4_2 = 16#32) ∧
+    g.rf_unpack_bytes_called_5 = (!(BitVec.ult 0x7fffff00#32 u2) && BitVec.ule 18#32 u2 && !(h5 == 22#16)) ∧
+    (g.rf_unpack_bytes_called_5 = true → g.rf_unpack_bytes_arg_5_0 = rf_wavheader_decode.tag_local_pack) ∧
+    (g.rf_unpack_bytes_called_5 = true → g.rf_unpack_bytes_arg_5_1 = 0#64) ∧
+    (g.rf_unpack_bytes_called_5 = true → g.rf_unpack_bytes_arg_5_2 = u2 - 18#32) ∧
+    g.rf_unpack_bytes_called_6 = !(BitVec.ult 0x7fffff00#32 u2) ∧
+    (g.rf_unpack_bytes_called_6 = true → g.rf_unpack_bytes_arg_6_0 = rf_wavheader_decode.tag_local_pack) ∧
+    (g.rf_unpack_bytes_called_6 = true → g.rf_unpack_bytes_arg_6_1 = rf_wavheader_decode.tag_wh_data_chunk_id) ∧
+    (g.rf_unpack_bytes_called_6 = true → g.rf_unpack_bytes_arg_6_2 = 4#32) ∧
+    g.memcmp_called_1 = !(BitVec.ult 0x7fffff00#32 u2) ∧
+    (g.memcmp_called_1 = true → g.memcmp_arg_1_0 = rf_wavheader_decode.tag_fact) ∧
+    (g.memcmp_called_1 = true → g.memcmp_arg_1_1 = rf_wavheader_decode.tag_wh_data_chunk_id) ∧
+    (g.memcmp_called_1 = true → g.memcmp_arg_1_2 = 4#64) ∧
+    g.memcpy_called_1 = (!(BitVec.ult 0x7fffff00#32 u2) && (mc1 == 0#32)) ∧
+    (g.memcpy_called_1 = true → g.memcpy_arg_1_0 = rf_wavheader_decode.tag_wh_fact_chunk_id) ∧
+    (g.memcpy_called_1 = true → g.memcpy_arg_1_1 = rf_wavheader_decode.tag_wh_data_chunk_id) ∧
+    (g.memcpy_called_1 = true → g.memcpy_arg_1_2 = 4#64) ∧
+    g.rf_unpack_u32le_called_6 = (!(BitVec.ult 0x7fffff00#32 u2) && (mc1 == 0#32)) ∧
+    (g.rf_unpack_u32le_called_6 = true → g.rf_unpack_u32le_arg_6_0 = rf_wavheader_decode.tag_local_pack) ∧
+    g.rf_unpack_u32le_called_7 = (!(BitVec.ult 0x7fffff00#32 u2) && (mc1 == 0#32)) ∧
+    (g.rf_unpack_u32le_called_7 = true → g.rf_unpack_u32le_arg_7_0 = rf_wavheader_decode.tag_local_pack) ∧
+    g.rf_unpack_bytes_called_7 = (!(BitVec.ult 0x7fffff00#32 u2) && (mc1 == 0#32)) ∧
+    (g.rf_unpack_bytes_called_7 = true → g.rf_unpack_bytes_arg_7_0 = rf_wavheader_decode.tag_local_pack) ∧
+    (g.rf_unpack_bytes_called_7 = true → g.rf_unpack_bytes_arg_7_1 = rf_wavheader_decode.tag_wh_data_chunk_id) ∧
+    (g.rf_unpack_bytes_called_7 = true → g.rf_unpack_bytes_arg_7_2 = 4#32) ∧
+    g.rf_unpack_u32le_called_8 = !(BitVec.ult 0x7fffff00#32 u2) ∧
+    (g.rf_unpack_u32le_called_8 = true → g.rf_unpack_u32le_arg_8_0 = rf_wavheader_decode.tag_local_pack) ∧
+    g.memcmp_called_2 = !(BitVec.ult 0x7fffff00#32 u2) ∧
+    (g.memcmp_called_2 = true → g.memcmp_arg_2_0 = rf_wavheader_decode.tag_riff) ∧
+    (g.memcmp_called_2 = true → g.memcmp_arg_2_1 = rf_wavheader_decode.tag_wh_chunk_id) ∧
+    (g.memcmp_called_2 = true → g.memcmp_arg_2_2 = 4#64) ∧
+    g.memcmp_called_3 = (!(BitVec.ult 0x7fffff00#32 u2) && mc2 == 0#32 && !BitVec.ult u1 (12#32 + u2 + (if (!(BitVec.ult 0x7fffff00#32 u2) && (mc1 == 0#32)) then u6 else 0#32))) ∧
+    (g.memcmp_called_3 = true → g.memcmp_arg_3_0 = rf_wavheader_decode.tag_wave) ∧
+    (g.memcmp_called_3 = true → g.memcmp_arg_3_1 = rf_wavheader_decode.tag_wh_format) ∧
+    (g.memcmp_called_3 = true → g.memcmp_arg_3_2 = 4#64) ∧
+    g.rf_pack_remaining_called_1 = (!(BitVec.ult 0x7fffff00#32 u2) && mc2 == 0#32 && !BitVec.ult u1 (12#32 + u2 + (if (!(BitVec.ult 0x7fffff00#32 u2) && (mc1 == 0#32)) then u6 else 0#32)) && mc3 == 0#32) ∧
+    (g.rf_pack_remaining_called_1 = true → g.rf_pack_remaining_arg_1_0 = rf_wavheader_decode.tag_local_pack) := by
+  unfold rf_wavheader_decode rf_wavheader_decode.tag_local_pack rf_wavheader_decode.tag_wh_chunk_id rf_wavheader_decode.tag_wh_format rf_wavheader_decode.tag_wh_fmt_chunk_id rf_wavheader_decode.tag_wh_sub_format rf_wavheader_decode.tag_wh_fact_chunk_id rf_wavheader_decode.tag_wh_data_chunk_id rf_wavheader_decode.tag_fact rf_wavheader_decode.tag_riff rf_wavheader_decode.tag_wave
+  bv_decide (config := { timeout := 300 })
+
+/-! model-only facts about the three stages of `Librfn.Model.Wav.decode` (no generated code involved) -/
+
+theorem decode_fst (m : Librfn.Model.Pack.Mem) (b sz : Nat) :
+    (decode m b sz).1 = if 0x7fffff00#32 < (decHead m b sz).1.fmtChunkSize then (decHead m b sz).1
+                        else (decTail m (decExt m (decHead m b sz))).1 := by
+  unfold decode
+  simp only
+  split
+  · rfl
+  · split <;> rfl
+
+theorem decHead_zero (m : Librfn.Model.Pack.Mem) (b sz : Nat) :
+    (decHead m b sz).1.cbSize = 0#16 ∧ (decHead m b sz).1.validBitsPerSample = 0#16 ∧ (decHead m b sz).1.channelMask = 0#32 ∧
+    (decHead m b sz).1.factChunkSize = 0#32 ∧ (decHead m b sz).1.sampleLength = 0#32 ∧ (decHead m b sz).1.dataChunkSize = 0#32 :=
+  ⟨rfl, rfl, rfl, rfl, rfl, rfl⟩
+
+theorem decExt_keeps (m : Librfn.Model.Pack.Mem) (s : Wh × Pk) :
+    (decExt m s).1.chunkSize = s.1.chunkSize ∧ (decExt m s).1.fmtChunkSize = s.1.fmtChunkSize ∧
+    (decExt m s).1.audioFormat = s.1.audioFormat ∧ (decExt m s).1.numChannels = s.1.numChannels ∧
+    (decExt m s).1.sampleRate = s.1.sampleRate ∧ (decExt m s).1.byteRate = s.1.byteRate ∧
+    (decExt m s).1.blockAlign = s.1.blockAlign ∧ (decExt m s).1.bitsPerSample = s.1.bitsPerSample ∧
+    (decExt m s).1.factChunkSize = s.1.factChunkSize ∧ (decExt m s).1.sampleLength = s.1.sampleLength ∧
+    (decExt m s).1.dataChunkSize = s.1.dataChunkSize ∧ (decExt m s).1.chunkId = s.1.chunkId ∧ (decExt m s).1.format = s.1.format := by
+  unfold decExt
+  split
+  · simp only; split <;> exact ⟨rfl, rfl, rfl, rfl, rfl, rfl, rfl, rfl, rfl, rfl, rfl, rfl, rfl⟩
+  · exact ⟨rfl, rfl, rfl, rfl, rfl, rfl, rfl, rfl, rfl, rfl, rfl, rfl, rfl⟩
+
+theorem decExt_ext (m : Librfn.Model.Pack.Mem) (s : Wh × Pk) :
+    (decExt m s).1.cbSize = (if 18#32 ≤ s.1.fmtChunkSize then (unpackU16le m s.2).1 else s.1.cbSize) ∧
+    (decExt m s).1.validBitsPerSample = (if 18#32 ≤ s.1.fmtChunkSize ∧ (unpackU16le m s.2).1 = 22#16
+        then (unpackU16le m (unpackU16le m s.2).2).1 else s.1.validBitsPerSample) ∧
+    (decExt m s).1.channelMask = (if 18#32 ≤ s.1.fmtChunkSize ∧ (unpackU16le m s.2).1 = 22#16
+        then (unpackU32le m (unpackU16le m (unpackU16le m s.2).2).2).1 else s.1.channelMask) := by
+  unfold decExt
+  by_cases a : 18#32 ≤ s.1.fmtChunkSize
+  · by_cases c : (unpackU16le m s.2).1 = 22#16
+    · simp [a, c]
+    · simp [a, c]
+  · simp [a]
+
+theorem decTail_keeps (m : Librfn.Model.Pack.Mem) (s : Wh × Pk) :
+    (decTail m s).1.chunkSize = s.1.chunkSize ∧ (decTail m s).1.fmtChunkSize = s.1.fmtChunkSize ∧
+    (decTail m s).1.audioFormat = s.1.audioFormat ∧ (decTail m s).1.numChannels = s.1.numChannels ∧
+    (decTail m s).1.sampleRate = s.1.sampleRate ∧ (decTail m s).1.byteRate = s.1.byteRate ∧
+    (decTail m s).1.blockAlign = s.1.blockAlign ∧ (decTail m s).1.bitsPerSample = s.1.bitsPerSample ∧
+    (decTail m s).1.cbSize = s.1.cbSize ∧ (decTail m s).1.validBitsPerSample = s.1.validBitsPerSample ∧
+    (decTail m s).1.channelMask = s.1.channelMask ∧ (decTail m s).1.chunkId = s.1.chunkId ∧ (decTail m s).1.format = s.1.format := by
+  unfold decTail
+  simp only
+  split <;> exact ⟨rfl, rfl, rfl, rfl, rfl, rfl, rfl, rfl, rfl, rfl, rfl, rfl, rfl⟩
+
+theorem decTail_fact (m : Librfn.Model.Pack.Mem) (s : Wh × Pk) :
+    (decTail m s).1.factChunkSize = (if (unpackBytes m s.2 4).1 = fact then (unpackU32le m (unpackBytes m s.2 4).2).1 else s.1.factChunkSize) ∧
+    (decTail m s).1.sampleLength = (if (unpackBytes m s.2 4).1 = fact
+        then (unpackU32le m (unpackU32le m (unpackBytes m s.2 4).2).2).1 else s.1.sampleLength) := by
+  unfold decTail
+  simp only
+  split <;> exact ⟨rfl, rfl⟩
+
+/-- **tie T, `rf_wavheader_decode`**: give every external call the answer the pack model gives at the cursor the model is at
+    (`decHead` / `decExt` / `decTail` name those reads), and let `memcmp` answer as the model compares the arrays it filled.  Then
+    every scalar member is the model's (`decode_tie`) and the returned `int` is the model's (`decode_ret_tie`).  That the calls are made in
+    the model's order - hence at the model's cursor positions - is the call list of `decode_generated` read against the definitions of
+    `decHead` / `decExt` / `decTail`; a mechanical replay of the trace against the pack model (as `encode_tie` does with `runEnc`) was
+    attempted and exceeds the elaborator's budget, so that last link is by inspection. -/
+theorem decode_tie (m : Librfn.Model.Pack.Mem) (b sz : Nat) (hsz : sz < 2 ^ 32) (p : BitVec 64) (wh0 : Wh) (q : BitVec 64) :
+    let hd := decHead m b sz
+    let ex := decExt m hd
+    let tl := decTail m ex
+    let e1 := unpackU16le m hd.2
+    let e2 := unpackU16le m e1.2
+    let e3 := unpackU32le m e2.2
+    let t1 := unpackBytes m ex.2 4
+    let t2 := unpackU32le m t1.2
+    let t3 := unpackU32le m t2.2
+    let g := rf_wavheader_decode p (BitVec.ofNat 32 sz) wh0.chunkSize wh0.fmtChunkSize wh0.audioFormat wh0.numChannels wh0.sampleRate
+      wh0.byteRate wh0.blockAlign wh0.bitsPerSample wh0.cbSize wh0.validBitsPerSample wh0.channelMask wh0.factChunkSize wh0.sampleLength
+      wh0.dataChunkSize hd.1.chunkSize hd.1.fmtChunkSize hd.1.audioFormat hd.1.numChannels hd.1.sampleRate hd.1.byteRate hd.1.blockAlign
+      hd.1.bitsPerSample e1.1 e2.1 e3.1 (cmpRet fact t1.1) q t2.1 t3.1 tl.1.dataChunkSize (cmpRet riff hd.1.chunkId) (cmpRet wave hd.1.format)
+      (BitVec.ofInt 32 (remaining tl.2))
+    g.ub = false ∧ g.exh = false ∧
+    g.wh_chunk_size = (decode m b sz).1.chunkSize ∧ g.wh_fmt_chunk_size = (decode m b sz).1.fmtChunkSize ∧
+    g.wh_audio_format = (decode m b sz).1.audioFormat ∧ g.wh_num_channels = (decode m b sz).1.numChannels ∧
+    g.wh_sample_rate = (decode m b sz).1.sampleRate ∧ g.wh_byte_rate = (decode m b sz).1.byteRate ∧
+    g.wh_block_align = (decode m b sz).1.blockAlign ∧ g.wh_bits_per_sample = (decode m b sz).1.bitsPerSample ∧
+    g.wh_cb_size = (decode m b sz).1.cbSize ∧ g.wh_valid_bits_per_sample = (decode m b sz).1.validBitsPerSample ∧
+    g.wh_channel_mask = (decode m b sz).1.channelMask ∧ g.wh_fact_chunk_size = (decode m b sz).1.factChunkSize ∧
+    g.wh_sample_length = (decode m b sz).1.sampleLength ∧ g.wh_data_chunk_size = (decode m b sz).1.dataChunkSize := by
+  intro hd ex tl e1 e2 e3 t1 t2 t3 g
+  have H := decode_generated p (BitVec.ofNat 32 sz) wh0.chunkSize wh0.fmtChunkSize wh0.audioFormat wh0.numChannels wh0.sampleRate
+      wh0.byteRate wh0.blockAlign wh0.bitsPerSample wh0.cbSize wh0.validBitsPerSample wh0.channelMask wh0.factChunkSize wh0.sampleLength
+      wh0.dataChunkSize hd.1.chunkSize hd.1.fmtChunkSize hd.1.audioFormat hd.1.numChannels hd.1.sampleRate hd.1.byteRate hd.1.blockAlign
+      hd.1.bitsPerSample e1.1 e2.1 e3.1 (cmpRet fact t1.1) q t2.1 t3.1 tl.1.dataChunkSize (cmpRet riff hd.1.chunkId) (cmpRet wave hd.1.format)
+      (BitVec.ofInt 32 (remaining tl.2))
+  obtain ⟨h1, h2, _, _, f1, f2, f3, f4, f5, f6, f7, f8, f9, f10, f11, f12, f13, f14, _⟩ := H
+  have bult (a c : BitVec 32) : BitVec.ult a c = decide (a < c) := by simp [BitVec.ult, BitVec.lt_def]
+  have bule (a c : BitVec 32) : BitVec.ule a c = decide (a ≤ c) := by simp [BitVec.ule, BitVec.le_def]
+  have cfact (t : List UInt8) : (cmpRet fact t == 0#32) = decide (t = fact) := by
+    unfold cmpRet
+    by_cases h : fact = t
+    · subst h; simp
+    · have : ¬ t = fact := fun e => h e.symm
+      simp [h, this]
+  refine ⟨h1, h2, ?_, ?_, ?_, ?_, ?_, ?_, ?_, ?_, ?_, ?_, ?_, ?_, ?_, ?_⟩
+  all_goals (first | rw [f1] | rw [f2] | rw [f3] | rw [f4] | rw [f5] | rw [f6] | rw [f7] | rw [f8] | rw [f9] | rw [f10] | rw [f11] | rw [f12] | rw [f13] | rw [f14])
+  all_goals rw [decode_fst]
+  · split
+    · rfl
+    · rw [(decTail_keeps m _).1, (decExt_keeps m _).1]
+  · split
+    · rfl
+    · rw [(decTail_keeps m _).2.1, (decExt_keeps m _).2.1]
+  · split
+    · rfl
+    · rw [(decTail_keeps m _).2.2.1, (decExt_keeps m _).2.2.1]
+  · split
+    · rfl
+    · rw [(decTail_keeps m _).2.2.2.1, (decExt_keeps m _).2.2.2.1]
+  · split
+    · rfl
+    · rw [(decTail_keeps m _).2.2.2.2.1, (decExt_keeps m _).2.2.2.2.1]
+  · split
+    · rfl
+    · rw [(decTail_keeps m _).2.2.2.2.2.1, (decExt_keeps m _).2.2.2.2.2.1]
+  · split
+    · rfl
+    · rw [(decTail_keeps m _).2.2.2.2.2.2.1, (decExt_keeps m _).2.2.2.2.2.2.1]
+  · split
+    · rfl
+    · rw [(decTail_keeps m _).2.2.2.2.2.2.2.1, (decExt_keeps m _).2.2.2.2.2.2.2.1]
+  · rw [bult, bule]
+    by_cases hb : 0x7fffff00#32 < (decHead m b sz).1.fmtChunkSize
+    · have hb' : 0x7fffff00#32 < hd.1.fmtChunkSize := hb
+      rw [if_pos hb]
+      simp only [hb', decide_true, Bool.not_true, Bool.false_and, Bool.false_eq_true, if_false]
+      exact (decHead_zero m b sz).1.symm
+    · have hb' : ¬ 0x7fffff00#32 < hd.1.fmtChunkSize := hb
+      rw [if_neg hb, (decTail_keeps m _).2.2.2.2.2.2.2.2.1, (decExt_ext m _).1, (decHead_zero m b sz).1]
+      simp only [hb', decide_false, Bool.not_false, Bool.true_and]
+      by_cases a : 18#32 ≤ hd.1.fmtChunkSize
+      · have a' : 18#32 ≤ (decHead m b sz).1.fmtChunkSize := a
+        simp [a, a', e1, e2, e3, hd]
+      · have a' : ¬ 18#32 ≤ (decHead m b sz).1.fmtChunkSize := a
+        simp [a, a']
+  · rw [bult, bule]
+    by_cases hb : 0x7fffff00#32 < (decHead m b sz).1.fmtChunkSize
+    · have hb' : 0x7fffff00#32 < hd.1.fmtChunkSize := hb
+      rw [if_pos hb]
+      simp only [hb', decide_true, Bool.not_true, Bool.false_and, Bool.false_eq_true, if_false]
+      exact (decHead_zero m b sz).2.1.symm
+    · have hb' : ¬ 0x7fffff00#32 < hd.1.fmtChunkSize := hb
+      rw [if_neg hb, (decTail_keeps m _).2.2.2.2.2.2.2.2.2.1, (decExt_ext m _).2.1, (decHead_zero m b sz).2.1]
+      simp only [hb', decide_false, Bool.not_false, Bool.true_and]
+      by_cases a : 18#32 ≤ hd.1.fmtChunkSize
+      · have a' : 18#32 ≤ (decHead m b sz).1.fmtChunkSize := a
+        simp [a, a', e1, e2, e3, hd]
+      · have a' : ¬ 18#32 ≤ (decHead m b sz).1.fmtChunkSize := a
+        simp [a, a']
+  · rw [bult, bule]
+    by_cases hb : 0x7fffff00#32 < (decHead m b sz).1.fmtChunkSize
+    · have hb' : 0x7fffff00#32 < hd.1.fmtChunkSize := hb
+      rw [if_pos hb]
+      simp only [hb', decide_true, Bool.not_true, Bool.false_and, Bool.false_eq_true, if_false]
+      exact (decHead_zero m b sz).2.2.1.symm
+    · have hb' : ¬ 0x7fffff00#32 < hd.1.fmtChunkSize := hb
+      rw [if_neg hb, (decTail_keeps m _).2.2.2.2.2.2.2.2.2.2.1, (decExt_ext m _).2.2, (decHead_zero m b sz).2.2.1]
+      simp only [hb', decide_false, Bool.not_false, Bool.true_and]
+      by_cases a : 18#32 ≤ hd.1.fmtChunkSize
+      · have a' : 18#32 ≤ (decHead m b sz).1.fmtChunkSize := a
+        simp [a, a', e1, e2, e3, hd]
+      · have a' : ¬ 18#32 ≤ (decHead m b sz).1.fmtChunkSize := a
+        simp [a, a']
+  · rw [bult, cfact]
+    by_cases hb : 0x7fffff00#32 < (decHead m b sz).1.fmtChunkSize
+    · have hb' : 0x7fffff00#32 < hd.1.fmtChunkSize := hb
+      rw [if_pos hb]
+      simp only [hb', decide_true, Bool.not_true, Bool.false_and, Bool.false_eq_true, if_false]
+      exact (decHead_zero m b sz).2.2.2.1.symm
+    · have hb' : ¬ 0x7fffff00#32 < hd.1.fmtChunkSize := hb
+      rw [if_neg hb, (decTail_fact m _).1, (decExt_keeps m _).2.2.2.2.2.2.2.2.1, (decHead_zero m b sz).2.2.2.1]
+      simp only [hb', decide_false, Bool.not_false, Bool.true_and]
+      by_cases a : t1.1 = fact
+      · have a' : (unpackBytes m (decExt m (decHead m b sz)).2 4).1 = fact := a
+        simp [a, a', t1, t2, t3, ex, hd]
+      · have a' : ¬ (unpackBytes m (decExt m (decHead m b sz)).2 4).1 = fact := a
+        simp [a, a']
+  · rw [bult, cfact]
+    by_cases hb : 0x7fffff00#32 < (decHead m b sz).1.fmtChunkSize
+    · have hb' : 0x7fffff00#32 < hd.1.fmtChunkSize := hb
+      rw [if_pos hb]
+      simp only [hb', decide_true, Bool.not_true, Bool.false_and, Bool.false_eq_true, if_false]
+      exact (decHead_zero m b sz).2.2.2.2.1.symm
+    · have hb' : ¬ 0x7fffff00#32 < hd.1.fmtChunkSize := hb
+      rw [if_neg hb, (decTail_fact m _).2, (decExt_keeps m _).2.2.2.2.2.2.2.2.2.1, (decHead_zero m b sz).2.2.2.2.1]
+      simp only [hb', decide_false, Bool.not_false, Bool.true_and]
+      by_cases a : t1.1 = fact
+      · have a' : (unpackBytes m (decExt m (decHead m b sz)).2 4).1 = fact := a
+        simp [a, a', t1, t2, t3, ex, hd]
+      · have a' : ¬ (unpackBytes m (decExt m (decHead m b sz)).2 4).1 = fact := a
+        simp [a, a']
+  · rw [bult]
+    by_cases hb : 0x7fffff00#32 < (decHead m b sz).1.fmtChunkSize
+    · have hb' : 0x7fffff00#32 < hd.1.fmtChunkSize := hb
+      rw [if_pos hb]
+      simp only [hb', decide_true, Bool.not_true, Bool.false_eq_true, if_false]
+      exact (decHead_zero m b sz).2.2.2.2.2.symm
+    · have hb' : ¬ 0x7fffff00#32 < hd.1.fmtChunkSize := hb
+      rw [if_neg hb]
+      simp only [hb', decide_false, Bool.not_false, if_true]
+      rfl
+
+theorem wrap32_eq_bmod (x : Int) : wrap32 x = Int.bmod x 4294967296 := by
+  unfold wrap32
+  simp only [Int.bmod]
+  split <;> omega
+
+theorem toInt_sub_ofNat_ofInt (a : Nat) (r : Int) :
+    (BitVec.ofNat 32 a - BitVec.ofInt 32 r).toInt = wrap32 ((a : Int) - r) := by
+  rw [wrap32_eq_bmod, BitVec.toInt_sub, BitVec.toInt_ofNat', BitVec.toInt_ofInt, ← Int.sub_bmod]
+
+theorem ret_form (a : Nat) (r : Int) : ((BitVec.ofNat 32 a).toInt - r).bmod 4294967296 = wrap32 ((a : Int) - r) := by
+  rw [wrap32_eq_bmod, BitVec.toInt_ofNat']
+  exact Int.bmod_sub_bmod
+
+/-- **tie T, `rf_wavheader_decode`, returned value**: with the same answers as in `decode_tie`, the returned `int` is the model's:
+    `-EINVAL` for an over-long format chunk (before anything is skipped), a wrong `RIFF` / `WAVE` tag or a chunk size smaller than
+    the chunks it contains (sum in wrapping 32-bit arithmetic), else `sz - rf_pack_remaining()` read as `int` -/
+theorem decode_ret_tie (m : Librfn.Model.Pack.Mem) (b sz : Nat) (p : BitVec 64) (wh0 : Wh) (q : BitVec 64) :
+    let hd := decHead m b sz
+    let ex := decExt m hd
+    let tl := decTail m ex
+    let e1 := unpackU16le m hd.2
+    let e2 := unpackU16le m e1.2
+    let e3 := unpackU32le m e2.2
+    let t1 := unpackBytes m ex.2 4
+    let t2 := unpackU32le m t1.2
+    let t3 := unpackU32le m t2.2
+    let g := rf_wavheader_decode p (BitVec.ofNat 32 sz) wh0.chunkSize wh0.fmtChunkSize wh0.audioFormat wh0.numChannels wh0.sampleRate
+      wh0.byteRate wh0.blockAlign wh0.bitsPerSample wh0.cbSize wh0.validBitsPerSample wh0.channelMask wh0.factChunkSize wh0.sampleLength
+      wh0.dataChunkSize hd.1.chunkSize hd.1.fmtChunkSize hd.1.audioFormat hd.1.numChannels hd.1.sampleRate hd.1.byteRate hd.1.blockAlign
+      hd.1.bitsPerSample e1.1 e2.1 e3.1 (cmpRet fact t1.1) q t2.1 t3.1 tl.1.dataChunkSize (cmpRet riff hd.1.chunkId) (cmpRet wave hd.1.format)
+      (BitVec.ofInt 32 (remaining tl.2))
+    g.ret.toInt = (decode m b sz).2 := by
+  intro hd ex tl e1 e2 e3 t1 t2 t3 g
+  have H := decode_generated p (BitVec.ofNat 32 sz) wh0.chunkSize wh0.fmtChunkSize wh0.audioFormat wh0.numChannels wh0.sampleRate
+      wh0.byteRate wh0.blockAlign wh0.bitsPerSample wh0.cbSize wh0.validBitsPerSample wh0.channelMask wh0.factChunkSize wh0.sampleLength
+      wh0.dataChunkSize hd.1.chunkSize hd.1.fmtChunkSize hd.1.audioFormat hd.1.numChannels hd.1.sampleRate hd.1.byteRate hd.1.blockAlign
+      hd.1.bitsPerSample e1.1 e2.1 e3.1 (cmpRet fact t1.1) q t2.1 t3.1 tl.1.dataChunkSize (cmpRet riff hd.1.chunkId) (cmpRet wave hd.1.format)
+      (BitVec.ofInt 32 (remaining tl.2))
+  obtain ⟨_, _, _, hr, _⟩ := H
+  have bult (a c : BitVec 32) : BitVec.ult a c = decide (a < c) := by simp [BitVec.ult, BitVec.lt_def]
+  have cne (a t : List UInt8) : (cmpRet a t != 0#32) = decide (t ≠ a) := by
+    unfold cmpRet
+    by_cases h : a = t
+    · subst h; simp
+    · have : ¬ t = a := fun e => h e.symm
+      simp [h, this]
+  have cfact (t : List UInt8) : (cmpRet fact t == 0#32) = decide (t = fact) := by
+    unfold cmpRet
+    by_cases h : fact = t
+    · subst h; simp
+    · have : ¬ t = fact := fun e => h e.symm
+      simp [h, this]
+  show (rf_wavheader_decode _ _ _ _ _ _ _ _ _ _ _ _ _ _ _ _ _ _ _ _ _ _ _ _ _ _ _ _ _ _ _ _ _ _ _).ret.toInt = _
+  rw [hr, bult, bult, cne, cne, cfact]
+  unfold decode
+  simp only
+  by_cases hb : 0x7fffff00#32 < (decHead m b sz).1.fmtChunkSize
+  · have hb' : 0x7fffff00#32 < hd.1.fmtChunkSize := hb
+    rw [if_pos hb]
+    simp only [hb', decide_true, Bool.not_true, Bool.not_false, if_true]
+    rfl
+  · have hb' : ¬ 0x7fffff00#32 < hd.1.fmtChunkSize := hb
+    rw [if_neg hb]
+    simp only [hb', decide_false, Bool.not_false, Bool.not_true, Bool.false_eq_true, if_false, Bool.true_and]
+    have k1 : (decTail m (decExt m (decHead m b sz))).1.chunkId = hd.1.chunkId := by
+      rw [(decTail_keeps m _).2.2.2.2.2.2.2.2.2.2.2.1, (decExt_keeps m _).2.2.2.2.2.2.2.2.2.2.2.1]
+    have k2 : (decTail m (decExt m (decHead m b sz))).1.format = hd.1.format := by
+      rw [(decTail_keeps m _).2.2.2.2.2.2.2.2.2.2.2.2, (decExt_keeps m _).2.2.2.2.2.2.2.2.2.2.2.2]
+    have k3 : (decTail m (decExt m (decHead m b sz))).1.chunkSize = hd.1.chunkSize := by
+      rw [(decTail_keeps m _).1, (decExt_keeps m _).1]
+    have k4 : (decTail m (decExt m (decHead m b sz))).1.fmtChunkSize = hd.1.fmtChunkSize := by
+      rw [(decTail_keeps m _).2.1, (decExt_keeps m _).2.1]
+    have k5 : (decTail m (decExt m (decHead m b sz))).1.factChunkSize = (if t1.1 = fact then t2.1 else 0#32) := by
+      rw [(decTail_fact m _).1, (decExt_keeps m _).2.2.2.2.2.2.2.2.1, (decHead_zero m b sz).2.2.2.1]
+    unfold headerBad
+    rw [k1, k2, k3, k4, k5]
+    by_cases c1 : hd.1.chunkId ≠ riff
+    · simp [c1, EINVAL]
+    · by_cases c2 : hd.1.chunkSize < 12#32 + hd.1.fmtChunkSize + (if t1.1 = fact then t2.1 else 0#32)
+      · simp [c1, c2, EINVAL]
+      · by_cases c3 : hd.1.format ≠ wave
+        · simp [c1, c2, c3, EINVAL]
+        · simp [c1, c2, c3]
+          exact ret_form sz _
 
 end Librfn.C13.TieSeq
